@@ -1,10 +1,14 @@
 package world
 
 import (
+	"encoding/hex"
 	"encoding/json"
 	"fmt"
 	"math/big"
+	"os"
+	"os/exec"
 	"sort"
+	"strconv"
 	"strings"
 
 	sdk "github.com/cosmos/cosmos-sdk/types"
@@ -294,6 +298,25 @@ func (w *World) BuildMsgs(a Act) (string, []sdk.Msg, error) {
 		sig, err := mhubtypes.NewEthereumSignature(gethcrypto.Keccak256Hash(bz).Bytes(), w.N.Ext(sigKey).Priv)
 		if err != nil {
 			return "", nil, err
+		}
+		if b, ok := a["tool"].(bool); ok && b {
+			// the signature comes from the operators' real key tool (keys-generator make_delegate_sign <key> <account> <nonce>)
+			tool := os.Getenv("VERIF_KEYGEN")
+			if tool == "" {
+				return "", nil, fmt.Errorf("VERIF_KEYGEN not set")
+			}
+			acc := w.N.Acct(val).Addr.String()
+			if a.Has("sigval") {
+				acc = w.N.Acct(a.S("sigval")).Addr.String()
+			}
+			out, err := exec.Command(tool, "make_delegate_sign", hex.EncodeToString(gethcrypto.FromECDSA(w.N.Ext(sigKey).Priv)), acc, strconv.FormatInt(seq, 10)).Output()
+			if err != nil {
+				return "", nil, fmt.Errorf("key tool: %v", err)
+			}
+			sig, err = hex.DecodeString(strings.TrimPrefix(strings.TrimSpace(string(out)), "0x"))
+			if err != nil {
+				return "", nil, fmt.Errorf("key tool output: %v", err)
+			}
 		}
 		msg := &mhubtypes.MsgDelegateKeys{ValidatorAddress: valAddr.String(), OrchestratorAddress: w.N.AddrString(a.S("orch")),
 			ExternalAddress: w.N.ExtString(a.S("ext")), EthSignature: sig, ChainId: a.S("chain")}
